@@ -956,7 +956,7 @@ class Frame(object):
                                bounding_f_range=(self.get_frequency(bounding_min_index),
                                                  self.get_frequency(bounding_max_index)),
                                doppler_smearing=doppler_smearing,
-                               smearing_subsamples=int(np.ceil(drift_rate / self.unit_drift_rate)))
+                               smearing_subsamples=max(1, int(np.ceil(abs(drift_rate) / self.unit_drift_rate))))
 
     def get_index(self, frequency):
         """
